@@ -1,0 +1,33 @@
+//go:build verif
+
+package policy
+
+// Contracts for the verification framework in /verif (comment-only).
+
+// ---- the compiled form of a NetworkPolicy (built by policyResult): the ingress half exists iff the
+// policy's types include Ingress, and then has one source rule per ingress rule of the spec; likewise
+// the egress half. A policy whose policyTypes is [Egress] may still carry ingress rules in its spec
+// (the API accepts that; they are ignored), so ingressRule == nil does NOT imply an empty spec.Ingress.
+//@ pure compiledOK(pl *policy) bool = pl.np != nil && (pl.ingressRule != nil || pl.egressRule != nil) && (pl.ingressRule != nil ==> len(pl.ingressRule.srcRules) == len(pl.np.Spec.Ingress) && pl.ingressRule.dstIPTable != nil) && (pl.egressRule != nil ==> len(pl.egressRule.dstRules) == len(pl.np.Spec.Egress) && pl.egressRule.srcIPTable != nil)
+// ASSUMED about peerRule: a rule compiled from peers with a pod or namespace selector has its ip table
+// (peerTable fails only on a lister error or an invalid selector, which API validation excludes)
+//@ pure ingressTablesOK(pl *policy) bool = pl.ingressRule != nil ==> forall i int {pl.ingressRule.srcRules[i]} :: 0 <= i && i < len(pl.ingressRule.srcRules) ==> pl.ingressRule.srcRules[i].ipTable != nil
+//@ pure egressTablesOK(pl *policy) bool = pl.egressRule != nil ==> forall i int {pl.egressRule.dstRules[i]} :: 0 <= i && i < len(pl.egressRule.dstRules) ==> pl.egressRule.dstRules[i].ipTable != nil
+
+// the ipset boundary (exec, trusted) and the namespace lister
+//@ func (*PolicyManager).addOrDelIPSetEntry trusted
+//@   requires set != nil
+//@   modifies nothing
+//@ func (*PolicyManager).getNamespaces trusted
+//@   modifies fresh elemsof(*v1.Namespace), fresh elemsof(interface{})
+//@   ensures result1 == nil ==> forall i int {result0[i]} :: 0 <= i && i < len(result0) ==> result0[i] != nil
+
+// ---- C18: a pod event must not crash the policy manager, whatever valid policy is installed
+//@ func [C18] (*PolicyManager).syncIngressInIPSet
+//@   requires policy != nil && pod != nil && compiledOK(policy) && ingressTablesOK(policy)
+//@   modifies fresh elemsof(*v1.Namespace), fresh elemsof(interface{})
+//@   loop 0,1,2 invariant true
+//@ func [C18] (*PolicyManager).syncEgressInIPSet
+//@   requires policy != nil && pod != nil && compiledOK(policy) && egressTablesOK(policy)
+//@   modifies fresh elemsof(*v1.Namespace), fresh elemsof(interface{})
+//@   loop 0,1,2 invariant true
